@@ -527,7 +527,28 @@ fn eval_script(toks: &[Tok], env: &Env, legs: Legs, acc: &mut Acc, case: &Case) 
             // The byte parser refuses the string. Whether it should is C02's business; but a script is also what the
             // construction API holds, so when the reference nester can build the element tree and the library
             // serialises that tree to these very bytes, the text legs run on the constructed script.
-            let built = super::libx::nest_tokens(toks, &env.openers).and_then(|bits| guard(|| Script::from_script_bits(bits)).ok());
+            // only for token lists that are balanced in the plain sense (every OP_ELSE / OP_ENDIF inside an open block, every
+            // block closed): a parser that refuses stray OP_ELSE / OP_ENDIF is entitled to, and then so is the text reader
+            let balanced = {
+                let mut depth = 0i32;
+                let mut ok = true;
+                for t in toks {
+                    if let Tok::Op(b) = t {
+                        if env.openers.contains(b) {
+                            depth += 1;
+                        } else if *b == rs::OP_ELSE && depth == 0 {
+                            ok = false;
+                        } else if *b == rs::OP_ENDIF {
+                            depth -= 1;
+                            if depth < 0 {
+                                ok = false;
+                            }
+                        }
+                    }
+                }
+                ok && depth == 0
+            };
+            let built = if balanced { super::libx::nest_tokens(toks, &env.openers).and_then(|bits| guard(|| Script::from_script_bits(bits)).ok()) } else { None };
             match built {
                 Some(s) if guard(|| s.to_bytes()).ok().as_deref() == Some(&bytes[..]) => {
                     acc.bump("script_built_from_elements_because_from_bytes_rejects", 1);
